@@ -228,6 +228,10 @@ def run(repo, tier):
                   ("insertion_effect", ["X", "insertions"])):
         out += pure_params(repo, repo.func(VE + "." + f), ps)
     from ..rules import negative_slice_rule
+    from .. import rules as _rules
+    # X_var = X[mask].reshape(N, A, -1): its length is L minus the per-example number of removed positions - data, any value in [1, L]; a
+    # counter-model may therefore choose it freely (it is not an extent the engine merely failed to relate to L)
+    _rules.TRUSTED_LOCAL_EXTENTS.add("X_var")
     for f in ("deletion_effect", "insertion_effect"):
         out += negative_slice_rule(repo.func(VE + "." + f))
     return out
